@@ -373,6 +373,35 @@ func c08(c *Ctx) {
 	// lowers the in-memory sizes and the next Append rewinds pLog, dLog and cLog with SetOffset; the size found at the next Open is the physical size of the commit
 	// log, so the rollback survives a restart only if an appendable rewind is persistent (it is not: known finding)
 	c17RewindPersistent(c, "C08.3/rollback-is-persistent")
+	// ResetSize computes the new digest-log and commit-log sizes from the size it is asked for, not from the
+	// tree's current size (which still is the old one while the new sizes are being computed)
+	if f := c.mustFn("C08.3/rollback-sizes-from-new-size", "embedded/ahtree.(*AHtree).ResetSize"); f != nil {
+		var newSize *ssa.Parameter
+		for _, p := range f.Params {
+			if p.Name() == "newSize" {
+				newSize = p
+			}
+		}
+		for _, fld := range []string{"AHtree.dLogSize", "AHtree.cLogSize"} {
+			for i, in := range sites(f, storeTo(fld)) {
+				st := in.(*ssa.Store)
+				fromNew := newSize != nil && dependsOn(st.Val, func(v ssa.Value) bool { return v == ssa.Value(newSize) })
+				fromOld := dependsOn(st.Val, func(v ssa.Value) bool {
+					if cl, ok := v.(*ssa.Call); ok && calleeName(&cl.Call) == "embedded/ahtree.(*AHtree).size" {
+						return true
+					}
+					if ld, ok := v.(*ssa.UnOp); ok && ld.Op == token.MUL {
+						if fl, _ := fieldOf(ld.X); fl == "AHtree.cLogSize" || fl == "AHtree.dLogSize" {
+							return true
+						}
+					}
+					return false
+				})
+				c.check(fromNew && !fromOld, "C08.3/rollback-sizes-from-new-size", fmt.Sprintf("%s:%s#%d", fnName(f), fld, i), c.pos(in.Pos()), "derived from newSize ("+desc(st.Val)+")",
+					"after a rollback "+fld+" is computed from the tree's current (old) size: the next Append writes its digests after the rolled-back ones while proofs read canonical positions")
+			}
+		}
+	}
 	r = "C08.3/rollback-hygiene"
 	if f := c.mustFn(r, ahT+"ResetSize"); f != nil {
 		for _, sz := range []string{"cLogSize", "pLogSize", "dLogSize"} {
